@@ -665,7 +665,7 @@ class C13(core.Check):
         return out
 
     def gen_cases(self, rng: random.Random, tier: str) -> List[dict]:
-        n = 32 if tier == "quick" else 440
+        n = 28 if tier == "quick" else 440
         cases = [self._gen_valid(rng, tier) for _ in range(n)]
         cases += [self._gen_symfree(rng) for _ in range(3 if tier == "quick" else 30)]
         cases += [self._gen_overlap(rng, tier) for _ in range(4 if tier == "quick" else 40)]
